@@ -46,7 +46,8 @@ namespace OpenMEEG {
 
     void Interface::set_to_outermost() {
         for (auto& omesh : oriented_meshes())
-            omesh.mesh().outermost() = true;
+            if (!omesh.mesh().isolated()) // An isolated mesh is excluded from the computation: its vertices carry no unknown.
+                omesh.mesh().outermost() = true;
         outermost_interface = true;
     }
 
